@@ -589,6 +589,14 @@ func main() {
 			if r.Multi != "" {
 				stats["multiplied-cast-lines"]++
 			}
+			if r.Extends != "" {
+				stats["extending-roles"]++
+			}
+			for _, sg := range r.Sigs {
+				if sg.Alt {
+					stats["patterns-with-a-group-name-in-two-alternatives"]++
+				}
+			}
 		}
 		for _, it := range gitems {
 			if it.Kind == "line" && it.Line.Text == "" {
